@@ -2010,6 +2010,12 @@ impl Planner {
                 .get(name)
                 .copied()
                 .ok_or_else(|| Error::Internal(format!("Variable '{}' not found", name))),
+            // id(x) is the value of x's own column (the column holds the node / edge id)
+            LogicalExpression::FunctionCall { name, args, .. }
+                if name.eq_ignore_ascii_case("id") && args.len() == 1 =>
+            {
+                self.resolve_expression_to_column_with_properties(&args[0], variable_columns)
+            }
             LogicalExpression::Property { variable, property } => {
                 // Look up the projected property column (e.g., "p_price" for p.price)
                 let col_name = format!("{}_{}", variable, property);
